@@ -23,7 +23,8 @@ PROPERTY = 'C16'
 LEVEL = 'exploration'
 RULE = ("(a) all ordered pairs (min<=max) over {-128.5,-1.5,-0.5,0,0.4,0.5,"
         "1.5,2.5,127.5,254.5,255.5,32767.5,65535.5,2^31-0.5} as the extreme "
-        "values of a 2x3 matrix (other entries integer or fractional) x "
+        "values of a 2x3 matrix (other entries 1, 0.25 and, when in range, "
+        "-1.2 / -0.7) x "
         "{dense, CSR, CSC} x {contiguous, chunk 1, chunk 2} x {X, layer "
         "'raw' with a decoy X} x round_to_int {True, False}; (b) all gene "
         "name sequences of length <= K over {Ensembl id, id.version, second "
@@ -278,7 +279,9 @@ def evaluate(case, scratch):
     if case['kind'] == 'values':
         k = 0
         for lo, hi in case['pairs']:
-            for filler in (1.0, 0.25):
+            for filler in (1.0, 0.25, -1.2, -0.7):
+                if filler < 0 and not (lo <= filler <= hi):
+                    continue      # negative fillers stay inside [lo, hi]
                 mat = np.array([[lo, filler, 0.0], [0.0, hi, filler]])
                 if lo > 0 or hi < 0:
                     mat = np.array([[lo, filler, lo], [lo, hi, filler]])
